@@ -80,7 +80,7 @@ added = {
  "C41-r6": "was already reached (the global 1024-buffer frame pool is reused across the whole check) but crashed the check: a panic in the many-frames probe is now reported as a violation",
  "C09-r7": "SCMP offenders over the type boundary (0..127 / 128..255) x codes {0, 1, 255} x body lengths under every cause",
  "C19-r7": "flag bytes (ConsDir/Peer, router alerts) now differ from field to field within a path (the byte filler gave all hop fields of a path the same flags)",
- "C25-r7": "NOT caught: the change is in the wiring of control/cmd/control/main.go (package main hands the core propagator the CoreReg policy's AllowIsdLoop); the check drives the propagator with the propagation policy directly and cannot import package main",
+ "C25-r7": "wiring phase: a test file added to package main of the control service through a build overlay runs createBeaconStore for all 36 AllowIsdLoop assignments (package main cannot be imported)",
  "C32-r7": "two certificates of one class sharing a distinguished name (twin appended / twin swapped in), in updates and in base TRCs",
  "C37-r7": "predecessor TRCs that expire before / at / after now independently of the grace period; expired predecessor in a running grace period is now judged (must reject, per trc.rst)",
  "C45-r7": "stored segments and lookups for destinations that differ only in the ISD",
@@ -127,8 +127,7 @@ Two sources of breakage were used; nothing below was ever committed to `/repo`.
 {round_lines}
    (Rounds 6 and 7 were partial rounds on 18 properties each - the ones with the most earlier misses, then the next
    group; for C29 (round 6) and C35 (round 7) the seeding agents found no change that breaks the property and keeps the
-   repository's own tests green. One round-7 change is not caught - C25-r7, a wiring change in `package main` of the
-   control service, see its row in the table.)
+   repository's own tests green.)
 
 What the misses had in common - and what the extensions therefore added - were dimensions of *identity* (same AS
 number in another ISD, AS-local interface numbers, stream ids differing in high bits, permuted certificate order),
